@@ -86,6 +86,19 @@ static int compare(const KDTree<P, int>& t, vector<Entry> list, const vector<Ent
     show("list     ", list);
     show("iteration", it_list);
   }
+  // the same walk with the post-increment form: `it++` returns the position BEFORE the step (the `*it++` idiom)
+  vector<Entry> post_list;
+  guard = 0;
+  for (auto it = t.begin(); it != t.end() && guard < list.size() + 8; guard++) {
+    auto before = it++;
+    post_list.push_back(ent(before->first, before->second));
+  }
+  sort(post_list.begin(), post_list.end());
+  if (!(post_list == list)) {
+    fail("iteration through the values returned by it++ yields a different multiset than the list");
+    show("list ", list);
+    show("*it++", post_list);
+  }
   vector<Entry> points = list;
   points.insert(points.end(), extra_points.begin(), extra_points.end());
   for (const auto& q : points) {
